@@ -26,6 +26,7 @@ DIRS = np.array(
 )  # fmt: skip
 
 DUP_MODES = ["exact", "within", "straddle", "outside"]
+UV_SHIFTS = [(1.0, 0.0), (-1.0, 0.0), (0.0, 1.0), (2.0, 0.0), (1.0, 1.0), (3.0, -2.0)]
 
 
 def _variant(face, how):
@@ -65,6 +66,7 @@ def build_dirty(spec, dv=8):
     F = [[int(x) for x in f] for f in F]
     n0 = len(V)
     cu = list(range(n0))  # uv class of every vertex
+    shift = {}  # vertex -> whole-number offset of its uv
     cn = [int(x) for x in rs.randint(0, len(DIRS), n0)]  # normal direction class
     noff = [0.0] * n0  # offset of the first normal component
 
@@ -85,6 +87,10 @@ def build_dirty(spec, dv=8):
         new = len(V)
         V.append(V[v] + d)
         cu.append(cu[v] if rs.rand() < 0.5 else 1000 + new)
+        if cu[-1] == cu[v] and rs.rand() < 0.4:
+            # same place in the texture up to a whole number of periods (the two sides of a seam: u = 0 and u = 1)
+            shift[new] = UV_SHIFTS[int(rs.randint(len(UV_SHIFTS)))]
+            info.append("uv_integer_shift")
         cn.append(cn[v] if rs.rand() < 0.6 else int(rs.randint(len(DIRS))))
         noff.append(float(rs.choice([0.0, 0.0, 0.003, 0.007])))
         slots = [(i, c) for i, f in enumerate(F) for c in range(3) if f[c] == v]
@@ -189,6 +195,9 @@ def build_dirty(spec, dv=8):
     V = np.array(V, dtype=np.float64).reshape((-1, 3))
     F = np.array(F, dtype=np.int64).reshape((-1, 3))
     cu = np.array(cu, dtype=np.int64)
+    uvs = np.zeros((len(V), 2))
+    for k_, sh_ in shift.items():
+        uvs[k_] = sh_
     cn = np.array(cn, dtype=np.int64)
     noff = np.array(noff, dtype=np.float64)
 
@@ -208,13 +217,13 @@ def build_dirty(spec, dv=8):
         perm = rs.permutation(len(V))  # new index of old vertex v is perm[v]
         inv = np.empty_like(perm)
         inv[perm] = np.arange(len(V))
-        V, cu, cn, noff = V[inv], cu[inv], cn[inv], noff[inv]
+        V, cu, cn, noff, uvs = V[inv], cu[inv], cn[inv], noff[inv], uvs[inv]
         F = perm[F]
         info.append("relabel")
     if spec.get("permute") and len(F) > 1:
         F = F[rs.permutation(len(F))]
         info.append("permute")
-    return {"V": np.ascontiguousarray(V), "F": np.ascontiguousarray(F), "cu": cu, "cn": cn, "noff": noff, "info": info, "rs": rs}
+    return {"V": np.ascontiguousarray(V), "F": np.ascontiguousarray(F), "cu": cu, "cn": cn, "noff": noff, "uvs": uvs, "info": info, "rs": rs}
 
 
 def unit_normals(V, F):
@@ -240,6 +249,8 @@ def make_tags(D, id_offset=0):
     c = vi * 5 + 1
     VC = np.column_stack(((c >> 8) & 255, np.full(nv, 191), c & 255, 150 + vi % 100)).astype(np.uint8).reshape((-1, 4))
     UV = np.column_stack((cu * 0.01 + (vi + 1) * 1e-9, 0.5 + 0.01 * (cu % 13))).reshape((-1, 2))
+    if "uvs" in D and len(D["uvs"]) == nv:
+        UV = UV + D["uvs"]
     VN = DIRS[cn] + (vi + 1)[:, None] * 1e-7 * np.array([1.0, 0.5, 0.25])
     VN[:, 0] += noff
     FN, ok = unit_normals(V, F)
@@ -319,7 +330,9 @@ def lattice_spec(draw):
 @st.composite
 def attach_spec(draw):
     return {
-        "visual": draw(st.sampled_from(["face", "vertex", "texture", "none", "face", "vertex", "texture"])),
+        # painted_*: no colours assigned; the lazily created default colour array is edited in place
+        "visual": draw(st.sampled_from(["face", "vertex", "texture", "none", "face", "vertex", "texture", "painted_vertex", "painted_face"])),
+        "paint_read": draw(st.booleans()),
         "fattr": draw(st.booleans()),
         "vattr": draw(st.booleans()),
         "fnorm": draw(st.booleans()),
